@@ -58,6 +58,8 @@ type Unit struct {
 	loopPre     map[int]*State
 	sawPoolGet  bool
 	poolCase    string
+	inCallee    bool
+	variant     *Clause
 }
 
 type Exit struct {
